@@ -185,7 +185,7 @@ impl Prop for C19 {
             8 => (0u8..9, prop_oneof![4 => 3u8..=5, 1 => 6u8..=7], prop_oneof![4 => 3u8..=5, 1 => 6u8..=7], any::<u64>()).prop_map(|(fmt, wlog, hlog, s)| Case::Tex { fmt, wlog, hlog, fill: Fill::Random(s) }),
             1 => (0u8..9, 3u8..=5, 3u8..=5, prop_oneof![Just(0u8), Just(0xFF), any::<u8>()]).prop_map(|(fmt, wlog, hlog, b)| Case::Tex { fmt, wlog, hlog, fill: Fill::Const(b) }),
             2 => (0u8..9, 3u8..=6, 3u8..=6, any::<u64>()).prop_map(|(fmt, wlog, hlog, s)| Case::Tex { fmt, wlog, hlog, fill: Fill::Tiles(s) }),
-            3 => (1u8..=64, 1u8..=64, any::<u64>(), prop_oneof![Just(256u16), 1u16..=256]).prop_map(|(w, h, seed, palette_len)| Case::Tpl { w, h, seed, palette_len }),
+            3 => (1u8..=64, 1u8..=64, any::<u64>(), prop_oneof![4 => Just(256u16), 8 => 1u16..=256, 1 => 257u16..=1024]).prop_map(|(w, h, seed, palette_len)| Case::Tpl { w, h, seed, palette_len }),
         ]
         .boxed()
     }
@@ -349,10 +349,12 @@ impl Prop for C19 {
             }
             Case::Tpl { w, h, seed, palette_len } => {
                 let (w, h) = ((*w).clamp(1, 64) as usize, (*h).clamp(1, 64) as usize);
-                let plen = (*palette_len).clamp(1, 256) as usize;
+                // (more than 256 entries: the count field is 16 bits wide, an 8-bit index reaches the first 256)
+                let plen = (*palette_len).clamp(1, 1024) as usize;
+                cx.label_if(plen > 256, "TPL-palette>256-entries");
                 let mut r = Mix64(*seed);
                 let palette: Vec<u16> = (0..plen).map(|_| r.next() as u16).collect();
-                let indices: Vec<u8> = (0..reftex::ci8_len(w, h)).map(|_| (r.next() % plen as u64) as u8).collect();
+                let indices: Vec<u8> = (0..reftex::ci8_len(w, h)).map(|_| (r.next() % plen.min(256) as u64) as u8).collect();
                 let file = build_tpl(&[TplImage { w, h, indices: indices.clone(), palette: palette.clone() }], 0);
                 let out = match cx.call(|| mila::tpl::Tpl::extract_textures(&file.bytes)) {
                     Some(Ok(t)) => t,
